@@ -29,8 +29,8 @@ ASSUMPTIONS = [
 SHARDS = {"quick": 8, "thorough": 16}
 FLOOR = 0.5
 REQUIRED_CLASSES = {
-    "quick": ["open-branch", "shorted-branch", "partial-short", "container", "private-element", "depth>=3", "unordered-f", "single-f", "all-open-refused", "open-branch-non-resistor", "builder-history", "builder-mutate-returned"],
-    "thorough": ["open-branch", "shorted-branch", "partial-short", "container", "private-element", "depth>=3", "unordered-f", "single-f", "all-open-refused", "open-branch-non-resistor", "builder-history", "builder-mutate-returned"],
+    "quick": ["open-branch", "shorted-branch", "partial-short", "container", "private-element", "depth>=3", "unordered-f", "single-f", "all-open-refused", "empty-connection", "open-branch-non-resistor", "builder-history", "builder-mutate-returned"],
+    "thorough": ["open-branch", "shorted-branch", "partial-short", "container", "private-element", "depth>=3", "unordered-f", "single-f", "all-open-refused", "empty-connection", "open-branch-non-resistor", "builder-history", "builder-mutate-returned"],
 }
 
 USER_SYMBOL = "Xps"
@@ -103,6 +103,7 @@ def palette(seed: int):
         E("R", R=math.inf), E("Ky", C=2.0, tau=0.1), E("Tlm"), E("G"), E("Ws"), E("R", R=1e6), E("La", L=1e-4, n=0.9),
         E("C", C=3e-3), E("R", R=0.0), E("H"), E("Ls"), E("Wo"), E("Tlmns"),
         E("Zarc", R=math.inf), E("Ga", R=math.inf), E("K", R=-math.inf, tau=0.5), E("Ha", R=math.inf),
+        ["S", []], ["P", []], ["S", [["S", []]]],  # empty connections: an ideal wire (only the object API can build them)
     ]
     k = seed % len(items)
     return items[k:] + items[:k]
@@ -214,6 +215,9 @@ def body(ctx, case):
     if len(set(fs)) != len(fs):
         labels.add("duplicate-f")
 
+    has_empty = _has_empty(ast)
+    if has_empty:
+        labels.add("empty-connection")
     circuit = G.build_objects(ast)
     top = G.top_connection(circuit)
     farr = np.array(fs, dtype=float)
@@ -281,7 +285,7 @@ def body(ctx, case):
             ok = False
 
     # --- (b) construction paths
-    if not has_inf:
+    if not has_inf and not has_empty:
         text, _ = G.print_cdc(ast)
         try:
             parsed = parse_cdc(text)
@@ -310,7 +314,9 @@ def body(ctx, case):
                 ok = False
 
     # --- (e) metamorphic: flatten + reverse children
-    mirrored = _mirror(G.normalize_root(ast))
+    # (an empty connection is a wire by the library's convention: merging an empty parallel connection into its parent
+    # would turn a short into nothing, so the flattening clause only mirrors such circuits)
+    mirrored = _mirror(ast if has_empty else G.normalize_root(ast))
     c2 = G.build_objects(mirrored)
     v, r = lib_eval(lambda: c2.get_impedances(farr))
     bad = [0] if v is None else [i for i in range(len(fs)) if not _close(v[i], lib[i], 4 * tol)]
@@ -318,6 +324,12 @@ def body(ctx, case):
 
     nontrivial = n_leaves >= 2 and G.ast_has(ast, "P")
     ctx.record(case, nontrivial, labels, "fewer than 2 leaves or no parallel node")
+
+
+def _has_empty(ast):
+    if ast[0] in ("S", "P"):
+        return len(ast[1]) == 0 or any(_has_empty(c) for c in ast[1])
+    return False
 
 
 def _nodes(ast, kind):
